@@ -2,5 +2,5 @@ package extractor
 
 const (
 	zzCtxLine   = 4
-	zzCtxGroups = 4
+	zzCtxGroups = 3
 )
